@@ -33,6 +33,7 @@ def main():
         return 1 if not res.get("ok", False) else 0
     pid = a.what
     tier = a.tier if a.tier in ("quick", "thorough") else "quick"
+    os.environ["PV_TIER"] = tier
     run = Run(pid, tier, seed)
     try:
         mod = importlib.import_module(f"contracts.{pid}")
